@@ -558,6 +558,14 @@ func main() {
 			genTmplCase(NewRng(seed, uint64(i)), out)
 		}
 		out.close()
+	case "ref": // <seed> <n> <outdir>: structured templates with natively computed expectations
+		seed, _ := strconv.ParseUint(os.Args[2], 10, 64)
+		n, _ := strconv.Atoi(os.Args[3])
+		out := openOut(os.Args[4])
+		for i := 0; i < n; i++ {
+			genRefCase(NewRng(seed, uint64(i)), out)
+		}
+		out.close()
 	case "code": // <seed> <n> <outdir>
 		seed, _ := strconv.ParseUint(os.Args[2], 10, 64)
 		n, _ := strconv.Atoi(os.Args[3])
